@@ -185,6 +185,12 @@ fn c04() {
         jobs.push(Job { harness: "c04_request_during_flush", cfg: json!({"burst": 40, "jump_k": k, "pb": 1, "max_branches": 20000}) });
     }
     jobs.push(Job { harness: "c04_request_during_flush", cfg: json!({"burst": 40, "pb": 1, "max_branches": 20000}) });
+    // the same with a burst that overflows the queue (capacity 64, 96 entries: 32 displaced) while
+    // the stream is flushed for the first request
+    for k in 0..tier.pick(8, 24) {
+        jobs.push(Job { harness: "c04_request_during_flush", cfg: json!({"burst": 96, "cap": 64, "jump_k": k, "pb": 1, "max_branches": 50000}) });
+    }
+    jobs.push(Job { harness: "c04_request_during_flush", cfg: json!({"burst": 96, "cap": 64, "pb": 1, "max_branches": 50000}) });
     finish(rep, jobs, "Every schedule (DPOR, preemption bound) of appends and flush requests (same thread, separate threads, two requesters, after shutdown, pending across the writer's shutdown, capacities 1/2/8, clock jump at every early clock read) against the real writer thread; the stream log is snapshotted inside the waker at the instant the flush future is completed and must already contain every entry appended before the request (or it was displaced) followed by a stream flush. A flush that never completes is a loom deadlock report.");
 }
 
